@@ -28,14 +28,17 @@ func verifScheme() *runtime.Scheme {
 	return s
 }
 
-func verifFillObjectSet(a adapters.ObjectSetAccessor, ns, name, uid string, rev int64, paused bool, pkg string, remotes [][2]string) {
+func verifFillObjectSet(a adapters.ObjectSetAccessor, ns, name, uid string, rev int64, paused bool, labels, annotations map[string]string, remotes [][2]string) {
 	o := a.ClientObject()
 	o.SetNamespace(ns)
 	o.SetName(name)
 	o.SetUID(types.UID(uid))
 	o.SetGeneration(1)
-	if pkg != "" {
-		o.SetLabels(map[string]string{verifphase.PkgLabel: pkg})
+	if len(labels) > 0 {
+		o.SetLabels(labels)
+	}
+	if len(annotations) > 0 {
+		o.SetAnnotations(annotations)
 	}
 	a.SetRevision(rev)
 	if paused {
@@ -75,13 +78,13 @@ func VerifObjectSetFlavours() []verifphase.Flavour {
 			},
 			NewOwner: func(env *verifphase.Env, o verifphase.OwnerSpec) controllers.PhaseObjectOwner {
 				a := factory(env.Scheme)
-				verifFillObjectSet(a, o.NS, o.Name, o.UID, o.Rev, o.Paused, o.PkgLabel, nil)
+				verifFillObjectSet(a, o.NS, o.Name, o.UID, o.Rev, o.Paused, o.Labels(), o.Annotations(), nil)
 				return a
 			},
 			NewPrev: func(env *verifphase.Env, ns string, p verifphase.PrevSpec) controllers.PreviousObjectSet {
 				a := factory(env.Scheme)
 				if p.Name != "" {
-					verifFillObjectSet(a, ns, p.Name, p.UID, 0, false, "", p.Remotes)
+					verifFillObjectSet(a, ns, p.Name, p.UID, 0, false, p.Labels, nil, p.Remotes)
 				}
 				return a
 			},
@@ -119,7 +122,13 @@ func TestVerifPhase(t *testing.T) {
 		return
 	}
 	for _, fl := range order {
-		for _, s := range verifphase.Table(fl) {
+		// abstract decision table, every row realised by several concrete objects that differ in
+		// everything the model claims to be irrelevant (labels, annotations, controller kind / identity ...)
+		for _, s := range verifphase.TableX(fl, r.Rng, r.Pick(4, 8)) {
+			run(s)
+		}
+		// controller realisation x instance / package label relation x collisionProtection x revision, exhaustive
+		for _, s := range verifphase.IrrelevanceTable(fl, r.Pick(0, 1) == 1) {
 			run(s)
 		}
 		for _, s := range verifphase.PreflightTable(fl) {
